@@ -168,10 +168,8 @@ impl<'s, M: Matcher, S: Sink> MultiLine<'s, M, S> {
                     keepgoing = match self.last_match.take() {
                         None => true,
                         Some(last_match) => {
-                            if self.sink_context(&last_match)? {
-                                self.sink_matched(&last_match)?;
-                            }
-                            true
+                            self.sink_context(&last_match)?
+                                && self.sink_matched(&last_match)?
                         }
                     };
                 }
